@@ -290,6 +290,12 @@ def strfact_goal(fact):
         lhs = _tpl(a, xs[:-1] + [_tpl(b, [xs[-1]] + ys[1:])])
         rhs = _tpl(b, [_tpl(a, xs)] + ys[1:])
         return [lhs == rhs]
+    if kind == "same-head":
+        a, b = fact[1], fact[2]
+        h = S("h")
+        xs = [S(f"x{k}") for k in range(len(a) - 2)]
+        ys = [S(f"y{k}") for k in range(len(b) - 2)]
+        return [_tpl(a, [h] + xs) != _tpl(b, [h] + ys)]
     raise ValueError(f"unknown string fact {fact!r}")
 
 
